@@ -216,6 +216,32 @@ def check_C04(ctx):
                  distinct_key=lambda c: json.dumps(c["fam"], sort_keys=True))
     # question semantics: every pool question (real and synthetic pattern-list kinds) alone and beside a second one
     qcases = gen(ctx, "Question", S("gen", "Gen_Question.cfg" if q else "Gen_Question_thorough.cfg"), S("gen", "Gen_Question.tla"), workers=4 if q else 12)
+    chains = [c for c in qcases if c.get("kind") == "chain"]
+    qcases = [c for c in qcases if c.get("kind") != "chain"]
+    import htsvoice
+    for ci, c in enumerate(chains):
+        vp, ep, op = ctx.path("chain%d.htsvoice" % ci), ctx.path("chain%d.expect.json" % ci), ctx.path("chain%d.results.jsonl" % ci)
+        htsvoice.chain_voice(BUNDLED, vp, c["n"], c["name"], c["pats"])
+        json.dump({"n": c["n"], "expect": c["expect"]}, open(ep, "w"))
+        # watchdog: the unchanged loader and walker need 0.1 s for this voice; a walk that does not come back within two
+        # minutes (a truncated child index can close a cycle) is a violation, not a tool error
+        try:
+            p = run_jbv(["c04-chain", vp, label_table_json(ctx), ep, op], timeout=120)
+        except ToolError:
+            ctx.violation("chain:timeout", "deep-tree: loading the voice / selecting PDFs in a %d-node tree did not terminate within 120 s" % c["n"],
+                          {"chain": c["name"], "n": c["n"]})
+            ctx.stage("REPLAY deep-tree", nodes=c["n"], question=c["name"], labels=len(c["expect"]), failed="timeout")
+            os.remove(vp)
+            continue
+        if p.returncode != 0:
+            raise ToolError("c04-chain failed: " + p.stderr[-500:])
+        rows = read_jsonl(op)
+        bad = [r for r in rows if "key" in r]
+        for r in bad:
+            ctx.violation(r["key"], "deep-tree: " + r["msg"], {"chain": c["name"], "n": c["n"]})
+        ctx.traces += len(c["expect"])
+        ctx.stage("REPLAY deep-tree", nodes=c["n"], question=c["name"], labels=len(c["expect"]), failed=len(bad))
+        os.remove(vp)
     replay_stage(ctx, "questions", "c04-replay", qcases, extra_args=[label_table_json(ctx)],
                  distinct_key=lambda c: json.dumps(c["fam"], sort_keys=True))
     ctx.stage("selection coverage", distinct_tree_pdf_pairs=len(sel))
